@@ -88,7 +88,7 @@ func (ex *Exec) step(fr *frame, st *State, reach *Term, instr ssa.Instruction, e
 		case *Addr:
 			su := stT.Underlying().(*types.Struct)
 			na := *b
-			na.path = append(append([]pathElem{}, b.path...), pathElem{vc.SortOf(stT), su, in.Field})
+			na.path = append(append([]pathElem{}, b.path...), pathElem{structSort: vc.SortOf(stT), structT: su, field: in.Field})
 			na.typ = su.Field(in.Field).Type()
 			fr.env[in] = &na
 		default:
@@ -114,6 +114,15 @@ func (ex *Exec) step(fr *frame, st *State, reach *Term, instr ssa.Instruction, e
 			fr.env[in] = &Addr{comp: c, compSort: cs, idx: []*Term{vc.SlicePtr(s), vc.Arith("+", vc.SliceOff(s), idx, types.Typ[types.Int])}, typ: xt.Elem(), sliceOff: vc.SliceOff(s), sliceIdx: idx}
 		case *types.Pointer:
 			arr := xt.Elem().Underlying().(*types.Array)
+			if ba, isAddr := ex.operand(fr, in.X).(*Addr); isAddr {
+				// an array inside a struct (interior address): extend the path by an element selection
+				ex.boundsCheck(fr, st, &reach, idx, vc.IntConst(arr.Len()), in)
+				na := *ba
+				na.path = append(append([]pathElem{}, ba.path...), pathElem{index: idx})
+				na.typ = arr.Elem()
+				fr.env[in] = &na
+				return reach
+			}
 			r := ex.term(fr, in.X)
 			ex.boundsCheck(fr, st, &reach, idx, vc.IntConst(arr.Len()), in)
 			c, cs := ex.sliceComp(arr.Elem())
